@@ -18,6 +18,7 @@ type DeepOpts struct {
 	SkipFields map[string]bool // "TypeName.field" or ".field"
 	SkipTypes  map[string]bool // full type string
 	MaxDepth   int
+	BytesAsLen bool // render []byte as its length only
 }
 
 func DeepKey(v any, o DeepOpts) string {
@@ -106,6 +107,10 @@ func (d *dumper) dump(sb *strings.Builder, v reflect.Value, depth int) {
 		}
 	case reflect.Slice, reflect.Array:
 		if v.Kind() == reflect.Slice && v.Type().Elem().Kind() == reflect.Uint8 {
+			if d.o.BytesAsLen {
+				fmt.Fprintf(sb, "bytes(%d)", v.Len())
+				return
+			}
 			fmt.Fprintf(sb, "%x", readable(v).Bytes())
 			return
 		}
